@@ -183,8 +183,15 @@ package dram
 //@   assigns state.TotalReadCommands, state.TotalWriteCommands, state.TotalActivates, state.TotalPrecharges, state.RowBufferHits, state.RowBufferMisses, state.TotalCycles, state.TotalReadLatencyCycles, state.TotalWriteLatencyCycles, state.CompletedReads, state.CompletedWrites, state.BytesRead, state.BytesWritten
 
 // fresh bank table: only fresh objects are written (bounds: make() needs a sane size; Spec values are small)
+//@ lemma c18Mul3(a, b, c)
+//@   property C18
+//@   requires 0 <= a && a <= 1024 && 0 <= b && b <= 1024 && 0 <= c && c <= 1024
+//@   ensures 0 <= a * b && a * b <= 1048576
+//@   ensures 0 <= a * b * c && a * b * c <= 1073741824
+//@   ensures (a * b + 9223372036854775808) % 18446744073709551616 - 9223372036854775808 == a * b
 //@ fn initBankStatesFlat
 //@   property C18
+//@   use c18Mul3(numRanks, numBankGroups, numBanks)
 //@   requires 0 <= numRanks && numRanks <= 1024 && 0 <= numBankGroups && numBankGroups <= 1024 && 0 <= numBanks && numBanks <= 1024
 //@   assigns nothing
 //@   loop 0: invariant fresh(histories) && len(histories) == numRanks && 0 <= rangeint && rangeint < numRanks
@@ -197,7 +204,7 @@ package dram
 //@   requires m.comp != nil
 //@   assigns nothing
 //@   loop 0: invariant -1 <= rangeindex && rangeindex < len(m.comp.State.Transactions)
-//@   loop 1: invariant -1 <= rangeindex && rangeindex < len(t.SubTransactions)
+//@   loop 1: invariant -1 <= rangeindex
 
 // ---- reset: in-flight bookkeeping cleared, agent enabled, then ONE ack ----
 //@ pred c18SpecOK(m) = 0 <= m.comp.spec.NumRank && m.comp.spec.NumRank <= 1024 && 0 <= m.comp.spec.NumBankGroup && m.comp.spec.NumBankGroup <= 1024 && 0 <= m.comp.spec.NumBank && m.comp.spec.NumBank <= 1024
